@@ -472,15 +472,16 @@ func (sab *storageAllocationBase) payCostForDtuForEnterpriseAllocation(t *transa
 			}
 		}
 
+		if c > sab.WritePool { // To leave small margin to avoid panic
+			logging.Logger.Error("cost is greater than write pool for enterprise allocation", zap.Any("cost", c), zap.Any("write_pool", sab.WritePool))
+			c = sab.WritePool
+		}
+
+		// the blobber is rewarded with exactly what is taken from the write pool
 		sp := sps[i]
 		err = sp.DistributeRewards(c, ba.BlobberID, spenum.Blobber, spenum.EnterpriseBlobberReward, balances, sab.ID)
 		if err != nil {
 			return 0, err
-		}
-
-		if c > sab.WritePool { // To leave small margin to avoid panic
-			logging.Logger.Error("cost is greater than write pool for enterprise allocation", zap.Any("cost", c), zap.Any("write_pool", sab.WritePool))
-			c = sab.WritePool
 		}
 
 		sab.WritePool, err = currency.MinusCoin(sab.WritePool, c)
